@@ -3,10 +3,10 @@ from . import c08, c09
 
 PROPERTY = "C10"
 LEVEL = "exploration"
-SCENARIOS = {"array-percpu": 2, "array-hierarchy": 1, "hash-vars": 2, "dict": 2}
+SCENARIOS = {"array-percpu": 4, "array-hierarchy": 2, "hash-vars": 4, "dict": 4, "dict-strings": 1}
 TIERS = {"quick": {"runs": 9000, "chunk": 30}, "thorough": {"runs": 50000000, "wall_s": 600, "chunk": 150, "recheck": 16}}
 RULE = ("the C08 and C09 histories (array, per-CPU and hash variables of every format read "
-        "and written from Python; Dict set/get/pop/del/iteration; possible CPUs drawn from "
+        "and written from Python; Dict set/get/pop/del/iteration, also with byte-string members shorter than their field; possible CPUs drawn from "
         "{online, online+1, 2x online, online+124}) run against the kernel stub with a "
         "buffer monitor at the bpf() seam: for every MAP_* command the length of the Python "
         "buffer behind each key/value/next-key address (recorded when the library takes the "
@@ -29,6 +29,8 @@ def run(tape, scenario):
         res = c08.run(tape, "hierarchy", want_c10=True)
     elif scenario == "hash-vars":
         res = c09.run(tape, "vars", want_c10=True)
+    elif scenario == "dict-strings":
+        res = c09.run(tape, "dict-strings", want_c10=True)
     else:
         res = c09.run(tape, "dict", want_c10=True)
     if res["stats"].get("c10/unjudged"):
